@@ -577,11 +577,8 @@ impl<TokenIter: Iterator<Item = Result<Token>>> Parser<TokenIter> {
                                         syntax_env.get(&first.expect_symbol()?)
                                     {
                                         let remained = DatumBody::Pair(pair).locate(location);
-                                        let mut expanded_datum =
+                                        let expanded_datum =
                                             transformer.transform(keyword, remained)?;
-                                        // the expansion stands where the macro use stood, not
-                                        // where the template was written
-                                        expanded_datum.location = location;
                                         Self::transform_to_statement(expanded_datum, syntax_env)?
                                     } else {
                                         Self::transform_procedure_call(
